@@ -44,6 +44,7 @@ func TestExplore(t *testing.T) {
 	var wg sync.WaitGroup
 	sem := make(chan struct{}, par)
 	fails, timeouts := 0, 0
+	known := map[string]int{}
 	perW := map[string][2]int{}
 	maxWall, sumWall := map[string]float64{}, map[string]float64{}
 	slow, _ := strconv.ParseFloat(os.Getenv("VERIF_C01_SLOW"), 64)
@@ -73,7 +74,9 @@ func TestExplore(t *testing.T) {
 					fmt.Printf("TIMEOUT %s\n", describe(c))
 				}
 			}
-			if r.Violation != "" {
+			if r.Violation != "" && r.KnownID != "" {
+				known[r.KnownID]++
+			} else if r.Violation != "" {
 				fails++
 				pw[1]++
 				b, _ := json.Marshal(c)
@@ -87,7 +90,7 @@ func TestExplore(t *testing.T) {
 		}(c)
 	}
 	wg.Wait()
-	fmt.Printf("explored %d cases: %d failed, %d timeouts\n", len(cases), fails, timeouts)
+	fmt.Printf("explored %d cases: %d failed (not known), %d timeouts, known hits %v\n", len(cases), fails, timeouts, known)
 	for _, k := range workloadNames {
 		fmt.Printf("  %-22s %3d run %3d failed  max %.1fs  mean %.1fs\n", k, perW[k][0], perW[k][1], maxWall[k], sumWall[k]/float64(max(perW[k][0], 1)))
 	}
